@@ -231,6 +231,7 @@ class RealHistory:
         self.held = {}
         self.budget = budget
         self.obs = []
+        self.code_cache = {}      # source text -> compiled Python text (threaded runs precompile in the main thread)
 
     def terms(self, ts):
         return [build_real(self.yp, t, self.vmap) for t in ts]
@@ -262,7 +263,10 @@ class RealHistory:
             src = rprogram(st[1])
 
             def f():
-                yp.load_script_from_string(self.real.compile(src), SCRIPT_FN, overwrite=st[2])
+                code = self.code_cache.get(src)
+                if code is None:
+                    code = self.real.compile(src)
+                yp.load_script_from_string(code, SCRIPT_FN, overwrite=st[2])
             o = self.guarded(f)
         elif k == 'register':
             name, arity, rows = st[1], st[2], st[3]
@@ -306,6 +310,9 @@ class RealHistory:
                 o = ('load_did_not_raise',)
             except Exception:
                 o = None
+        elif k == 'atoms':
+            # atom creation: interned per engine
+            o = [yp.atom(n) is yp.atom(n) and yp.atom(n).name() == n for n in st[1]]
         elif k == 'assert_fact':
             t = st[1]
             args = self.terms(t[2] if t[0] == 'c' else ())
